@@ -75,12 +75,28 @@ func hasBreak(n ast.Node) bool {
 
 // toSwitch rewrites if statements without an init clause whose bodies contain
 // no unlabeled break into tagless switch statements (in statement lists only).
-func toSwitch(file *ast.File) int {
+func toSwitch(file *ast.File, info *types.Info) int {
 	n := 0
+	// a case expression of a tagless switch is compared with the untyped
+	// constant true converted to bool: a condition of a named boolean type
+	// does not compile there
+	plain := func(is *ast.IfStmt) bool {
+		for cur := is; cur != nil; {
+			if t := info.TypeOf(cur.Cond); t == nil || !(types.Identical(t, types.Typ[types.Bool]) || types.Identical(t, types.Typ[types.UntypedBool])) {
+				return false
+			}
+			next, _ := cur.Else.(*ast.IfStmt)
+			if next == nil || next.Init != nil {
+				break
+			}
+			cur = next
+		}
+		return true
+	}
 	conv := func(list []ast.Stmt) {
 		for i, st := range list {
 			is, ok := st.(*ast.IfStmt)
-			if !ok || is.Init != nil || hasBreak(is) {
+			if !ok || is.Init != nil || hasBreak(is) || !plain(is) {
 				continue
 			}
 			sw := &ast.SwitchStmt{Body: &ast.BlockStmt{}}
@@ -383,7 +399,7 @@ func main() {
 				case "flip":
 					k = flip(file)
 				case "switch":
-					k = toSwitch(file)
+					k = toSwitch(file, pk.TypesInfo)
 				case "fold":
 					k = fold(file, pk.TypesInfo)
 				case "incdec":
